@@ -82,7 +82,7 @@ func loadReuse(c *vlib.Ctx) (map[string]reuseCase, map[string]dirtyCase, int64) 
 			}
 		}
 	}
-	if nre < 100 || nfr < 100 || grow < 10 || len(dirty) != 20 {
+	if nre < 100 || nfr < 100 || grow < 10 || len(dirty) != 36 {
 		c.Fatal("Reuse.tla enumerated too little: %d reused / %d fresh sequences (%d with a growing step), %d dirty cases", nre, nfr, grow, len(dirty))
 	}
 	return reuse, dirty, mc.Distinct
@@ -347,6 +347,9 @@ type codec struct {
 	enc            func(o any) []byte
 	dec            func(wire []byte, into any) error
 	optional       func(o any, set bool) // nil: no optional field
+	// variant != nil: an object whose single group holds elements of three variants; element i (1-based) is of
+	// variant (i + shift) % 3
+	variant func(r *rand.Rand, n, shift int) any
 }
 
 func classCount(class string, rnd int, r *rand.Rand) int {
@@ -451,6 +454,59 @@ func allCodecs() []codec {
 		}
 		out = append(out, cd)
 	}
+	// block outlines: entries are a v1 transaction, a v2 transaction or a bare hash
+	outline := func(r *rand.Rand, n, shift int) gateway.V2BlockOutline {
+		ob := gateway.V2BlockOutline{Height: uint64(r.Intn(1 << 30)), ParentID: types.BlockID(rHash(r)), Nonce: r.Uint64(), Timestamp: rTime(r), MinerAddress: rAddr(r)}
+		for i := 1; i <= n; i++ {
+			switch (i + shift) % 3 {
+			case 0:
+				t := rTxns(r, 1)[0]
+				ob.Transactions = append(ob.Transactions, gateway.OutlineTransaction{Hash: t.MerkleLeafHash(), Transaction: &t})
+			case 1:
+				t := weightTxn(r, 300+r.Intn(300), 0, 0)
+				ob.Transactions = append(ob.Transactions, gateway.OutlineTransaction{Hash: t.MerkleLeafHash(), V2Transaction: &t})
+			default:
+				ob.Transactions = append(ob.Transactions, gateway.OutlineTransaction{Hash: rHash(r)})
+			}
+		}
+		return ob
+	}
+	vcount := func(class string, j int, r *rand.Rand) int { return classCount(class, 12, r) }
+	out = append(out,
+		codec{fam: "gw", name: "V2BlockOutline(entries)", dir: "req", k: 1, count: vcount,
+			mk:      func(r *rand.Rand, n []int) any { ob := outline(r, n[0], 0); return &ob },
+			variant: func(r *rand.Rand, n, shift int) any { ob := outline(r, n, shift); return &ob },
+			blank:   func() any { return new(gateway.V2BlockOutline) },
+			enc: func(v any) []byte {
+				var buf bytes.Buffer
+				e := types.NewEncoder(&buf)
+				gateway.VerifEncodeOutline(v.(*gateway.V2BlockOutline), e)
+				e.Flush()
+				return buf.Bytes()
+			},
+			dec: func(wire []byte, into any) error {
+				d := types.NewBufDecoder(wire)
+				gateway.VerifDecodeOutline(into.(*gateway.V2BlockOutline), d)
+				return d.Err()
+			}},
+		codec{fam: "gw", name: "RelayV2BlockOutline(entries)", dir: "req", k: 1, count: vcount,
+			mk: func(r *rand.Rand, n []int) any { return &gateway.RPCRelayV2BlockOutline{Block: outline(r, n[0], 0)} },
+			variant: func(r *rand.Rand, n, shift int) any {
+				return &gateway.RPCRelayV2BlockOutline{Block: outline(r, n, shift)}
+			},
+			blank: func() any { return new(gateway.RPCRelayV2BlockOutline) },
+			enc: func(v any) []byte {
+				var buf bytes.Buffer
+				e := types.NewEncoder(&buf)
+				gateway.VerifEncodeRequest(v.(gateway.Object), e)
+				e.Flush()
+				return buf.Bytes()
+			},
+			dec: func(wire []byte, into any) error {
+				d := types.NewBufDecoder(wire)
+				gateway.VerifDecodeRequest(into.(gateway.Object), d)
+				return d.Err()
+			}})
 	return out
 }
 
@@ -475,7 +531,7 @@ func dirtyDecode(cd codec, dc dirtyCase, seed int64) dirtyObs {
 	r := rand.New(rand.NewSource(seed))
 	o := dirtyObs{Kind: "dirty", Fam: cd.fam, Obj: cd.name, Dir: cd.dir, Case: dc.key(), Seed: seed}
 	held, arrives := make([]int, cd.k), make([]int, cd.k)
-	if dc.Kind == "slice" {
+	if dc.Kind == "slice" || dc.Kind == "variant" {
 		for j := 0; j < cd.k; j++ {
 			held[j], arrives[j] = cd.count(dc.Prev, j, r), cd.count(dc.New, j, r)
 		}
@@ -485,8 +541,15 @@ func dirtyDecode(cd codec, dc dirtyCase, seed int64) dirtyObs {
 		}
 	}
 	o.Held, o.Arrives = held, arrives
-	a := cd.mk(rand.New(rand.NewSource(r.Int63())), arrives)
-	b := cd.mk(rand.New(rand.NewSource(r.Int63())), held)
+	var a, b any
+	if dc.Kind == "variant" {
+		// what the receiver held at a position is of another variant than what arrives there
+		a = cd.variant(rand.New(rand.NewSource(r.Int63())), arrives[0], 1)
+		b = cd.variant(rand.New(rand.NewSource(r.Int63())), held[0], 0)
+	} else {
+		a = cd.mk(rand.New(rand.NewSource(r.Int63())), arrives)
+		b = cd.mk(rand.New(rand.NewSource(r.Int63())), held)
+	}
 	if dc.Kind == "optional" {
 		cd.optional(a, dc.New == "set")
 		cd.optional(b, dc.Prev == "set")
@@ -501,7 +564,7 @@ func dirtyDecode(cd codec, dc dirtyCase, seed int64) dirtyObs {
 		o.CleanFail = "a zero-value receiver does not re-encode to the bytes sent"
 		return o
 	}
-	o.Trivial = cd.k > 0 && dc.Kind == "slice" && dc.Prev == "zero" && dc.New == "zero"
+	o.Trivial = cd.k > 0 && dc.Kind != "optional" && dc.Prev == "zero" && dc.New == "zero"
 	if err := cd.dec(wire, b); err != nil {
 		o.What, o.Detail = "decode-error", err.Error()
 		return o
@@ -613,7 +676,7 @@ func runDirty(c *vlib.Ctx, cases map[string]dirtyCase, r *rand.Rand) dirtyTotals
 	hidden := map[string]bool{}
 	seenCase := map[string]bool{}
 	baseline := map[string]int{} // round trips into a zero value that failed (no dirty decode possible)
-	optionals := 0
+	optionals, variants := 0, 0
 	var jobs []func()
 	for _, cd := range allCodecs() {
 		cd := cd
@@ -621,6 +684,8 @@ func runDirty(c *vlib.Ctx, cases map[string]dirtyCase, r *rand.Rand) dirtyTotals
 			dc := cases[k]
 			switch {
 			case dc.Kind == "optional" && cd.optional == nil:
+				continue
+			case dc.Kind == "variant" && cd.variant == nil:
 				continue
 			case dc.Kind == "slice" && cd.k == 0 && !(dc.Prev == "few" && dc.New == "few"):
 				continue // an object without groups: one decode over another value of the fixed fields
@@ -648,6 +713,9 @@ func runDirty(c *vlib.Ctx, cases map[string]dirtyCase, r *rand.Rand) dirtyTotals
 					if dc.Kind == "optional" {
 						optionals++
 					}
+					if dc.Kind == "variant" {
+						variants++
+					}
 					mu.Unlock()
 					judgeDirty(c, o)
 				})
@@ -671,8 +739,8 @@ func runDirty(c *vlib.Ctx, cases map[string]dirtyCase, r *rand.Rand) dirtyTotals
 	if int64(nbase)*10 > t.evals || (nbase > 0 && c.NViolations() == 0) {
 		c.Infra("dirty receivers: %d of %d round trips into a zero value failed: %v", nbase, t.evals, baseline)
 	}
-	if optionals < 4 {
-		c.Infra("vacuity: dirty receivers: %d optional cases executed", optionals)
+	if optionals < 4 || variants < 32 {
+		c.Infra("vacuity: dirty receivers: %d optional and %d variant cases executed", optionals, variants)
 	}
 	hid := make([]string, 0, len(hidden))
 	for k := range hidden {
